@@ -290,10 +290,17 @@ class Lexer:
 
             ([\w\.\:]+)   # keyword
 
-            ((?:\s+\w+|\s*=\s*|"[^"]*?"|'[^']*?'|\s*,\s*)*)  # attrname, = \
-                                               #        sign, string expression
-                                               # comma is for backwards compat
-                                               # identified in #366
+            (
+             (?:
+              \s+\w+                              # attrname
+              |
+              \s*[=,](?:\s+(?:"[^"]*?"|'[^']*?'))?  # = sign; comma is for
+                                                  # backwards compat
+                                                  # identified in #366
+              |
+              "[^"]*?"|'[^']*?'                   # string expression
+             )*
+            )
 
             \s*     # more whitespace
 
